@@ -14,9 +14,22 @@
 
    Executable definitions only. *)
 From Coq Require Import List ZArith QArith String Ascii Bool.
-From Qryn Require Import model.TqSql model.Traceql model.TraceqlPlan.
+From Qryn Require Import model.TqSql model.Traceql model.TraceqlPlan model.Like.
 Import ListNotations.
 Open Scope string_scope.
+
+(* ClickHouse LIKE: the pattern grammar of model/Like.v (like_parse: % any run, _ any byte, \% \_ \\ literal), matched as C07's
+   evaluator does (SqlEval.lmatch; the same definition, SqlEval.v is not imported here) *)
+Fixpoint like_match (p : list litem) (s : string) {struct p} : bool :=
+  match p with
+  | [] => match s with EmptyString => true | _ => false end
+  | LCh c :: p' => match s with String d s' => Ascii.eqb c d && like_match p' s' | EmptyString => false end
+  | LOne :: p' => match s with String _ s' => like_match p' s' | EmptyString => false end
+  | LAny :: p' =>
+    (fix any (s : string) : bool :=
+       like_match p' s || match s with String _ s' => any s' | EmptyString => false end) s
+  end.
+Definition like_sem (pat s : string) : bool := like_match (like_parse pat) s.
 
 (* ================================================================ 1. database *)
 Record irow := {
@@ -601,6 +614,17 @@ Section SEM.
                                          | _ => None end
               | FCityHash64, [x] => match sub x with Some (VStr s) => Some (VInt (hash64 s)) | _ => None end
               | FUnhex, [x] => sub x        (* trace ids are kept in their hex form in the modelled database *)
+              (* functions the planners do not emit today; a statement that carries them (an object the dump reads from its printed
+                 text) is still given ClickHouse's meaning: like(s, pattern) with % = any run, _ = any byte, backslash escapes
+                 (model/Like.v like_sem, the definition C07's evaluator uses) *)
+              | FOther name, [x; pt] =>
+                  if String.eqb name "like" || String.eqb name "notLike" then
+                    match sub x, sub pt with
+                    | Some (VStr sv), Some (VStr pv) => Some (vbool (if String.eqb name "like" then like_sem pv sv else negb (like_sem pv sv)))
+                    | Some VNull, Some _ | Some _, Some VNull => Some VNull
+                    | _, _ => None
+                    end
+                  else None
               | _, _ => None
               end
         end
